@@ -243,7 +243,10 @@ def _dedup(v):
 
 def grid_cases(tier):
     cs = []
-    axes = [(20, 1.0, 0.0), (21, 5.0, 0.0), (20, 0.5, 10.0)]
+    # the last three: steps that are not dyadic fractions (quotients of commensurate steps are
+    # then not exact in floating point)
+    axes = [(20, 1.0, 0.0), (21, 5.0, 0.0), (20, 0.5, 10.0), (25, 0.7, 0.0), (25, 0.1, 0.0),
+            (25, 0.3, 0.0)]
     if tier == "thorough":
         axes += [(101, 1.0, 0.0), (50, 2.0, -20.0), (33, 0.25, 3.0)]
     for g in GENERATORS:
